@@ -15,7 +15,7 @@
 #include "/repo/src/rculfhash.c"
 static void f_lock(void){} static void f_unlock(void){} static void f_sync(void){}
 static void f_call_rcu(struct rcu_head *h, void (*fn)(struct rcu_head *)){ fn(h); }
-struct ent { struct cds_lfht_node n; unsigned long hash; long key; int id; int in; };
+struct ent { struct cds_lfht_node n; unsigned long hash; long key; int id; int in; unsigned long gen; long out; };   /* out: operation number at which the node last left the table */
 #define NE 48
 static const unsigned long HP[8] = { 0, 1, 2, 3, 5, 8, 0x8000000000000000UL, 0xffffffffffffffffUL };
 static struct ent E[NE]; static struct cds_lfht *ht; static char mmc;
@@ -38,6 +38,7 @@ static void check_buckets(void){
     else if(mmc=='c'){ unsigned long c=i>>ht->min_alloc_buckets_order; printf("B c %lu %lu -> %lu %lu\n", ht->min_alloc_buckets_order, i, c, (unsigned long)(b-ht->tbl_chunk[c])); } } }
 int main(int argc,char**argv){
   if(argc<8) return 9;
+  setvbuf(stdout,NULL,_IOLBF,0);   /* an assertion inside the library must not lose the operation that triggered it */
   long nops=atol(argv[1]); rs=strtoull(argv[2],0,10)*2654435761u+88172645463325252ull;
   unsigned long init=strtoul(argv[3],0,0), minb=strtoul(argv[4],0,0), maxb=strtoul(argv[5],0,0); int flags=atoi(argv[6]); mmc=argv[7][0];
   const struct cds_lfht_mm_type *mm = mmc=='o'?&cds_lfht_mm_order : mmc=='c'?&cds_lfht_mm_chunk : mmc=='m'?&cds_lfht_mm_mmap : NULL;
@@ -46,20 +47,28 @@ int main(int argc,char**argv){
   if(!ht){ printf("NEW NULL\n"); return 0; }
   printf("NEW ok\n"); check_buckets();
   static const unsigned long SZ[] = { 0,1,2,3,4,5,7,8,16,33,64,128, ~0UL, 6, 32 };
-  struct cds_lfht_iter it;
-  for(long k=0;k<nops;k++){ uint64_t r=rnd(); int op=r%16; int i=(r>>8)%NE;
-    if(op<=2){ if(E[i].in) continue; cds_lfht_node_init(&E[i].n); printf("A %d %lu %ld -> ",i,E[i].hash,E[i].key); cds_lfht_add(ht,E[i].hash,&E[i].n); E[i].in=1; printf("%d\n",i); }
-    else if(op<=4){ if(E[i].in) continue; cds_lfht_node_init(&E[i].n); printf("U %d %lu %ld -> ",i,E[i].hash,E[i].key); struct cds_lfht_node *x=cds_lfht_add_unique(ht,E[i].hash,match,&E[i].key,&E[i].n); if(x==&E[i].n) E[i].in=1; pid(x); }
-    else if(op==5){ if(E[i].in) continue; cds_lfht_node_init(&E[i].n); printf("R %d %lu %ld -> ",i,E[i].hash,E[i].key); struct cds_lfht_node *x=cds_lfht_add_replace(ht,E[i].hash,match,&E[i].key,&E[i].n); E[i].in=1; if(x) ((struct ent*)x)->in=0; pid(x); }
+  struct cds_lfht_iter it, sit; struct cds_lfht_node *sold=0; unsigned long sgen=0; long stime=0;
+  /* the kept iterator stands for one read-side critical section: a node removed inside that section may not be handed to the table again before it ends (no grace period can have elapsed) */
+#define REUSE(e) do{ if(sold && (e)->out>stime) sold=0; }while(0)
+#define OUT(e) ((e)->in=0, (e)->out=k)
+  for(long k=0;k<nops;k++){ uint64_t r=rnd(); int op=r%18; int i=(r>>8)%NE;
+    if(op<=2){ if(E[i].in) continue; cds_lfht_node_init(&E[i].n); E[i].gen++; REUSE(&E[i]); printf("A %d %lu %ld -> ",i,E[i].hash,E[i].key); cds_lfht_add(ht,E[i].hash,&E[i].n); E[i].in=1; printf("%d\n",i); }
+    else if(op<=4){ if(E[i].in) continue; cds_lfht_node_init(&E[i].n); E[i].gen++; REUSE(&E[i]); printf("U %d %lu %ld -> ",i,E[i].hash,E[i].key); struct cds_lfht_node *x=cds_lfht_add_unique(ht,E[i].hash,match,&E[i].key,&E[i].n); if(x==&E[i].n) E[i].in=1; pid(x); }
+    else if(op==5){ if(E[i].in) continue; cds_lfht_node_init(&E[i].n); E[i].gen++; REUSE(&E[i]); printf("R %d %lu %ld -> ",i,E[i].hash,E[i].key); struct cds_lfht_node *x=cds_lfht_add_replace(ht,E[i].hash,match,&E[i].key,&E[i].n); E[i].in=1; if(x) OUT((struct ent*)x); pid(x); }
     else if(op==6){ if(E[i].in) continue; long key=E[i].key; cds_lfht_lookup(ht,E[i].hash,match,&key,&it); struct cds_lfht_node *old=cds_lfht_iter_get_node(&it); if(!old) continue;
-      cds_lfht_node_init(&E[i].n); printf("P %d %d %lu %ld -> ",idof(old),i,E[i].hash,E[i].key); int x=cds_lfht_replace(ht,&it,E[i].hash,match,&E[i].key,&E[i].n); if(!x){ E[i].in=1; ((struct ent*)old)->in=0; } printf("%s\n", x?"err":"0"); }
-    else if(op<=8){ if(!E[i].in) continue; printf("D %d -> ",i); int x=cds_lfht_del(ht,&E[i].n); if(!x) E[i].in=0; printf("%s\n", x?"err":"0"); }
+      cds_lfht_node_init(&E[i].n); E[i].gen++; REUSE(&E[i]); printf("P %d %d %lu %ld -> ",idof(old),i,E[i].hash,E[i].key); int x=cds_lfht_replace(ht,&it,E[i].hash,match,&E[i].key,&E[i].n); if(!x){ E[i].in=1; OUT((struct ent*)old); } printf("%s\n", x?"err":"0"); }
+    else if(op<=8){ if(!E[i].in) continue; printf("D %d -> ",i); int x=cds_lfht_del(ht,&E[i].n); if(!x) OUT(&E[i]); printf("%s\n", x?"err":"0"); }
     else if(op<=11){ long key=(r>>16)%18; unsigned long h=HP[(key%16)%8]; if((r>>24)%11==0) h^=4; printf("L %lu %ld -> ",h,key); cds_lfht_lookup(ht,h,match,&key,&it); struct cds_lfht_node *x=cds_lfht_iter_get_node(&it); pid(x);
       while(x){ struct ent *e=(struct ent*)x; printf("N %d %lu %ld -> ",e->id,e->hash,e->key); cds_lfht_next_duplicate(ht,match,&key,&it); x=cds_lfht_iter_get_node(&it); pid(x); } }
+    else if(op==16){ long key=E[i].key; printf("L %lu %ld -> ",E[i].hash,key); cds_lfht_lookup(ht,E[i].hash,match,&key,&sit); sold=cds_lfht_iter_get_node(&sit); pid(sold); if(sold){ sgen=((struct ent*)sold)->gen; stime=k; } }   /* keep this iterator */
+    else if(op==17){ /* replace through the iterator kept from an earlier lookup, after any number of other updates (same read-side section: no resize in between) */
+      if(!sold) continue; struct ent *o=(struct ent*)sold; if(o->gen!=sgen){ sold=0; continue; }
+      int j=-1; for(int q=0;q<NE;q++){ int c=(i+q)%NE; if(!E[c].in && E[c].key==o->key && E[c].hash==o->hash && &E[c]!=o && E[c].out<=stime){ j=c; break; } } if(j<0) continue;
+      cds_lfht_node_init(&E[j].n); E[j].gen++; printf("P %d %d %lu %ld -> ",idof(sold),j,E[j].hash,E[j].key); int x=cds_lfht_replace(ht,&sit,E[j].hash,match,&E[j].key,&E[j].n); if(!x){ E[j].in=1; OUT(o); } printf("%s\n", x?"err":"0"); sold=0; }
     else if(op==12){ struct cds_lfht_node *x; printf("T ->"); cds_lfht_for_each(ht,&it,x) printf(" %d",idof(x)); printf("\n"); }
     else if(op==13){ long b,a; unsigned long c; cds_lfht_count_nodes(ht,&b,&c,&a); printf("C -> %lu\n",c); }
     else if(op==14){ unsigned long n=SZ[(r>>16)%15]; if(ht->max_nr_buckets>65536 && n>1024) n=1024;   /* an unbounded table really would grow to 2^63 buckets */
-      printf("Z %lu -> ",n); cds_lfht_resize(ht,n); printf("0\n"); check_buckets(); }
+      sold=0; printf("Z %lu -> ",n); cds_lfht_resize(ht,n); printf("0\n"); check_buckets(); }
     else { if((r>>16)%6) continue; printf("X -> "); int any=0; for(int j=0;j<NE;j++) any|=E[j].in; int x=any? cds_lfht_destroy(ht,NULL) : 1; if(any) printf("%s\n", x?"err":"0"); else printf("skip\n"); }
   }
   { struct cds_lfht_node *x; printf("T ->"); cds_lfht_for_each(ht,&it,x) printf(" %d",idof(x)); printf("\n"); }
